@@ -277,8 +277,8 @@ theorem ieValuesById_eval (tm : Tm) (id : Int) (hs : List (Int × Nat)) (hh : Tm
 /-- a successful `build` returns the evaluation of the skeleton of one of the template's cases, and every nested
     encoding of that skeleton succeeded -/
 theorem build_ok (t : Template) (plmn : Bytes) (args : List Val) (pdu : Val) (h : build E t plmn args = .ok pdu) :
-    ∃ c ∈ t.cases, ∃ tm, c.out = .val tm ∧ encOutcome E (effEnv t plmn args) .nil tm = none ∧
-      pdu = eval E (effEnv t plmn args) .nil tm := by
+    ∃ c ∈ t.cases, ∃ tm, c.cls = classes E t (effEnv t plmn args) ∧ c.out = .val tm ∧
+      encOutcome E (effEnv t plmn args) .nil tm = none ∧ pdu = eval E (effEnv t plmn args) .nil tm := by
   unfold build at h
   simp only at h
   cases hf : t.cases.find? (fun c => c.cls == classes E t (effEnv t plmn args)) with
@@ -286,6 +286,9 @@ theorem build_ok (t : Template) (plmn : Bytes) (args : List Val) (pdu : Val) (h 
   | some c =>
     simp only [hf] at h
     have hmem : c ∈ t.cases := List.mem_of_find?_eq_some hf
+    have hcls : c.cls = classes E t (effEnv t plmn args) := by
+      have := List.find?_some hf
+      simpa using this
     cases hout : c.out with
     | panic => simp [hout] at h
     | exit => simp [hout] at h
@@ -295,6 +298,396 @@ theorem build_ok (t : Template) (plmn : Bytes) (args : List Val) (pdu : Val) (h 
       | some x => simp [henc] at h
       | none =>
         simp only [henc, Except.ok.injEq] at h
-        exact ⟨c, hmem, tm, hout, henc, h.symm⟩
+        exact ⟨c, hmem, tm, hcls, hout, henc, h.symm⟩
+
+
+/-! ### skeleton-side checks (closed data: evaluated by the kernel in Props/C13.lean) and what they imply -/
+
+/-- the skeletons of a template: one per class of arguments under which the builder returns a PDU -/
+def skeletons (t : Template) : List Tm :=
+  t.cases.filterMap fun c => match c.out with | .val tm => some tm | _ => none
+
+theorem build_ok_skeleton (t : Template) (plmn : Bytes) (args : List Val) (pdu : Val) (h : build E t plmn args = .ok pdu) :
+    ∃ tm ∈ skeletons t, encOutcome E (effEnv t plmn args) .nil tm = none ∧ pdu = eval E (effEnv t plmn args) .nil tm := by
+  obtain ⟨c, hc, tm, _, hout, henc, hp⟩ := build_ok E t plmn args pdu h
+  refine ⟨tm, ?_, henc, hp⟩
+  unfold skeletons
+  rw [List.mem_filterMap]
+  exact ⟨c, hc, by rw [hout]⟩
+
+/-- every template of the builder table together with the two skeletons the wrapper surgery produces -/
+def allTable : List Template := table ++ [tGetNGSetupRequest, tGetPathSwitchRequest]
+
+open Spec.Ts38413 in
+/-- procedure code and message class of every skeleton are the row of TS 38.413 clause 9.4.3 -/
+def classOK (t : Template) : Bool :=
+  (skeletons t).all fun tm =>
+    decide (Tm.pduPresent tm = some ((msgClass t.message).index + 1)) && decide (Tm.pduProc tm = some (procCode t.message : Int))
+
+open Spec.Ts38413 in
+/-- every mandatory IE of the message's table is in every skeleton, with the table's criticality -/
+def mandOK (t : Template) : Bool :=
+  match mandatory t.message with
+  | none => true
+  | some ms =>
+    (skeletons t).all fun tm =>
+      match Tm.headers tm with
+      | some hs => ms.all fun m => hs.contains ((m.1 : Int), m.2)
+      | none => false
+
+
+/-! ### carrying an argument -/
+
+/-- the IE with id `id` occurs exactly once and, at position `path` of its value, the skeleton has the hole `h` -/
+def carriesHole (tm : Tm) (id : Int) (path : List Nat) (h : Hole) : Bool :=
+  match Tm.headers tm, Tm.iesById tm id with
+  | some _, some [ie] =>
+    match Tm.ieValue ie with
+    | some v =>
+      match Tm.at path v with
+      | some (.hole h') => h' == h
+      | _ => false
+    | none => false
+  | _, _ => false
+
+/-- **carrier lemma**: then the built PDU has exactly one IE with that id, and at that position of its value stands
+    what the hole evaluates to (the argument) -/
+theorem carriesHole_sound (tm : Tm) (id : Int) (path : List Nat) (h : Hole) (hc : carriesHole tm id path h = true) :
+    ∃ v, ieValuesById (eval E e cur tm) id = some [some v] ∧ Val.at path v = some (evalHole E e cur h) := by
+  unfold carriesHole at hc
+  split at hc
+  · rename_i hs ie hh hi
+    split at hc
+    · rename_i v hv
+      split at hc
+      · rename_i h' hat
+        have : h' = h := by simpa using hc
+        subst this
+        refine ⟨eval E e cur v, ?_, ?_⟩
+        · have := ieValuesById_eval E e cur tm id hs hh [ie] hi [v] (by simp [hv])
+          simpa using this
+        · rw [eval_at E e cur path v _ hat]; simp [eval]
+      · simp at hc
+    · simp at hc
+  · simp at hc
+
+/-- no IE with id `id` -/
+def lacksIE (tm : Tm) (id : Int) : Bool :=
+  match Tm.headers tm, Tm.iesById tm id with
+  | some _, some [] => true
+  | _, _ => false
+
+theorem lacksIE_sound (tm : Tm) (id : Int) (hc : lacksIE tm id = true) : ieValuesById (eval E e cur tm) id = some [] := by
+  unfold lacksIE at hc
+  split at hc
+  · rename_i hs hh hi
+    have := ieValuesById_eval E e cur tm id hs hh [] hi [] (by simp)
+    simpa using this
+  · simp at hc
+
+/-- the IE with id `id` occurs once and its value is the list built by ranging over argument `i`:
+    `{List: [ {PDUSessionID{x}, nil} for x in arg i ]}` -/
+def carriesList (tm : Tm) (id : Int) (i : Nat) : Bool :=
+  match Tm.headers tm, Tm.iesById tm id with
+  | some _, some [ie] =>
+    match Tm.ieValue ie with
+    | some (.struct [.mapInts j (.struct [.struct [.hole .elem], .nil])]) => j == i
+    | _ => false
+  | _, _ => false
+
+theorem carriesList_sound (tm : Tm) (id : Int) (i : Nat) (xs : List Val) (hx : e.arg i = .slice xs)
+    (hc : carriesList tm id i = true) :
+    ieValuesById (eval E e cur tm) id = some [some (.struct [.slice (xs.map fun x => .struct [.struct [x], .nil])])] := by
+  unfold carriesList at hc
+  split at hc
+  · rename_i hs ie hh hi
+    split at hc
+    · rename_i j hv
+      have : j = i := by simpa using hc
+      subst this
+      have := ieValuesById_eval E e cur tm id hs hh [ie] hi
+        [.struct [.mapInts j (.struct [.struct [.hole .elem], .nil])]] (by simp [hv])
+      simp only [List.map_cons, List.map_nil] at this
+      rw [this]
+      simp [eval, evalL, evalHole, hx]
+    · simp at hc
+  · simp at hc
+
+/-! ### nested encodings -/
+
+theorem encOutcomeL_none : ∀ (l : List Tm), encOutcomeL E e cur l = none → ∀ x ∈ l, encOutcome E e cur x = none := by
+  intro l
+  induction l with
+  | nil => intro _ x hx; simp at hx
+  | cons t ts ih =>
+    intro h x hx
+    simp only [encOutcomeL] at h
+    cases ht : encOutcome E e cur t with
+    | some y => simp [ht] at h
+    | none =>
+      simp only [ht] at h
+      rcases List.mem_cons.mp hx with rfl | hmem
+      · exact ht
+      · exact ih h x hmem
+
+/-- if no nested encoding of a skeleton fails, none fails in a sub-skeleton -/
+theorem encOutcome_at : ∀ (p : List Nat) (tm t' : Tm), encOutcome E e cur tm = none → Tm.at p tm = some t' →
+    encOutcome E e cur t' = none := by
+  intro p
+  induction p with
+  | nil => intro tm t' h hat; simp only [Tm.at, Option.some.injEq] at hat; subst hat; exact h
+  | cons i p ih =>
+    intro tm t' h hat
+    cases tm with
+    | struct fs =>
+      simp only [Tm.at] at hat
+      cases hfi : fs[i]? with
+      | none => simp [hfi] at hat
+      | some x =>
+        simp only [hfi] at hat
+        simp only [encOutcome] at h
+        exact ih x t' (encOutcomeL_none E e cur fs h x (List.mem_of_getElem? hfi)) hat
+    | slice fs =>
+      simp only [Tm.at] at hat
+      cases hfi : fs[i]? with
+      | none => simp [hfi] at hat
+      | some x =>
+        simp only [hfi] at hat
+        simp only [encOutcome] at h
+        exact ih x t' (encOutcomeL_none E e cur fs h x (List.mem_of_getElem? hfi)) hat
+    | ptr x =>
+      cases i with
+      | zero => simp only [Tm.at] at hat; simp only [encOutcome] at h; exact ih x t' h hat
+      | succ n => simp [Tm.at] at hat
+    | _ => simp [Tm.at] at hat
+
+/-- a nested encoding that did not fail produced the octets the skeleton evaluates to -/
+theorem enc_ok (ty : Nat) (inner : Tm) (h : encOutcome E e cur (.enc ty inner) = none) :
+    ∃ b, marshalTransfer ty (eval E e cur inner) = .ok b ∧ eval E e cur (.enc ty inner) = .octs b := by
+  simp only [encOutcome] at h
+  cases hi : encOutcome E e cur inner with
+  | some x => simp [hi] at h
+  | none =>
+    simp only [hi] at h
+    cases hm : marshalTransfer ty (eval E e cur inner) with
+    | ok b => exact ⟨b, rfl, by simp [eval, hm]⟩
+    | error x => cases x <;> simp [hm] at h
+
+/-- the IE with id `id` occurs once; at `path` of its value sits the encoding of a value of struct type `ty`, and at
+    `innerPath` of that value the skeleton has the hole `h` -/
+def carriesEnc (tm : Tm) (id : Int) (path : List Nat) (ty : Nat) (innerPath : List Nat) (h : Hole) : Bool :=
+  match Tm.headers tm, Tm.pduIEs tm, Tm.iesById tm id with
+  | some _, some _, some [ie] =>
+    match Tm.ieValue ie with
+    | some v =>
+      match Tm.at path v with
+      | some (.enc ty' inner) =>
+        ty' == ty &&
+        (match Tm.at innerPath inner with
+         | some (.hole h') => h' == h
+         | _ => false)
+      | _ => false
+    | none => false
+  | _, _, _ => false
+
+theorem mem_of_iesById (tm : Tm) (id : Int) (l ies : List Tm) (hl : Tm.pduIEs tm = some l) (hi : Tm.iesById tm id = some ies) :
+    ∀ ie ∈ ies, ie ∈ l := by
+  unfold Tm.iesById at hi
+  simp only [hl, Option.map_some, Option.some.injEq] at hi
+  intro ie hie
+  rw [← hi] at hie
+  exact (List.mem_filter.mp hie).1
+
+theorem encOutcome_ies (tm : Tm) (l : List Tm) (hl : Tm.pduIEs tm = some l) (h : encOutcome E e cur tm = none) :
+    ∀ ie ∈ l, encOutcome E e cur ie = none := by
+  unfold Tm.pduIEs at hl
+  cases hp : Tm.pduPresent tm with
+  | none => simp [hp] at hl
+  | some p =>
+    simp only [hp, Option.bind_some] at hl
+    cases hm : Tm.pduMsgIndex tm with
+    | none => simp [hm] at hl
+    | some m =>
+      simp only [hm, Option.bind_some] at hl
+      split at hl
+      · rename_i l' hat
+        simp only [Option.some.injEq] at hl; subst hl
+        have := encOutcome_at E e cur _ tm _ h hat
+        simp only [encOutcome] at this
+        exact encOutcomeL_none E e cur l' this
+      · simp at hl
+
+/-- **nested carrier lemma**: then the built PDU has exactly one IE with that id; at `path` of its value stand the octets
+    `b` that the encoder model produces ("valueExt") for a value `w` of type `ty`, and `w` has the argument at `innerPath` -/
+theorem carriesEnc_sound (tm : Tm) (id : Int) (path : List Nat) (ty : Nat) (innerPath : List Nat) (h : Hole)
+    (hc : carriesEnc tm id path ty innerPath h = true) (henc : encOutcome E e cur tm = none) :
+    ∃ v b w, ieValuesById (eval E e cur tm) id = some [some v] ∧ Val.at path v = some (.octs b) ∧
+      marshalTransfer ty w = .ok b ∧ Val.at innerPath w = some (evalHole E e cur h) := by
+  unfold carriesEnc at hc
+  split at hc
+  · rename_i hs l ie hh hl hi
+    split at hc
+    · rename_i v hv
+      split at hc
+      · rename_i ty' inner hat
+        simp only [Bool.and_eq_true, beq_iff_eq] at hc
+        obtain ⟨hty, hc⟩ := hc
+        subst hty
+        split at hc
+        · rename_i h' hin
+          have : h' = h := by simpa using hc
+          subst this
+          have hie : encOutcome E e cur ie = none :=
+            encOutcome_ies E e cur tm l hl henc ie (mem_of_iesById tm id l [ie] hl hi ie (by simp))
+          have hvv : encOutcome E e cur v = none := by
+            unfold Tm.ieValue at hv
+            cases hk : Tm.intAt [2, 0] ie with
+            | none => simp [hk] at hv
+            | some k => simp only [hk] at hv; exact encOutcome_at E e cur _ ie v hie hv
+          have hen : encOutcome E e cur (.enc ty' inner) = none := encOutcome_at E e cur path v _ hvv hat
+          obtain ⟨b, hm, hev⟩ := enc_ok E e cur ty' inner hen
+          refine ⟨eval E e cur v, b, eval E e cur inner, ?_, ?_, hm, ?_⟩
+          · have := ieValuesById_eval E e cur tm id hs hh [ie] hi [v] (by simp [hv])
+            simpa using this
+          · rw [eval_at E e cur path v _ hat, hev]
+          · rw [eval_at E e cur innerPath inner _ hin]; simp [eval]
+        · simp at hc
+      · simp at hc
+    · simp at hc
+  · simp at hc
+
+
+/-! ### role-driven table checks -/
+
+/-- position of the (first) parameter with role `r` -/
+def roleIdx (t : Template) (r : Role) : Option Nat := t.roles.findIdx? (fun x => x == r)
+
+open Spec.Ts38413 in
+def amfOK (t : Template) : Bool :=
+  match roleIdx t .amf with
+  | some i => (skeletons t).all fun tm => carriesHole tm (amfIe t.message) [0] (.arg i)
+  | none => true
+
+open Spec.Ts38413 in
+def ranOK (t : Template) : Bool :=
+  match roleIdx t .ran with
+  | some i => (skeletons t).all fun tm => carriesHole tm ieRANUENGAPID [0] (.arg i)
+  | none => true
+
+open Spec.Ts38413 in
+/-- NAS-PDU: carried; where the builder tests the argument (`i ∈ dims`) the IE may instead be absent -/
+def nasOK (t : Template) : Bool :=
+  match roleIdx t .nas with
+  | some i => (skeletons t).all fun tm =>
+      carriesHole tm ieNASPDU [0] (.argOcts i) || (t.dims.contains i && lacksIE tm ieNASPDU)
+  | none => true
+
+open Spec.Ts38413 in
+def psiOK (t : Template) : Bool :=
+  match roleIdx t .psi, psiItemIe t.message with
+  | some i, some id => (skeletons t).all fun tm => carriesHole tm id [0, 0, 0, 0] (.arg i)
+  | some _, none => false
+  | none, _ => true
+
+open Spec.Ts38413 in
+/-- PDU session id list: the builder tests `list != nil` (the only dimension): absent for nil, carried otherwise -/
+def psiListOK (t : Template) : Bool :=
+  match roleIdx t .psilist, psiListIe t.message with
+  | some i, some id =>
+    t.dims == [i] && roleAt t i == .psilist && t.cases.all fun c =>
+      match c.out with
+      | .val tm => if c.cls == [0] then lacksIE tm id else carriesList tm id i
+      | _ => false
+  | some _, none => false
+  | none, _ => true
+
+open Spec.Ts38413 in
+def nameOK (t : Template) : Bool :=
+  match roleIdx t .name with
+  | some i => (skeletons t).all fun tm => carriesHole tm ieRANNodeName [0] (.arg i)
+  | none => true
+
+open Spec.Ts38413 in
+/-- gNB id: with its bit length in the Global RAN Node ID of NG SETUP REQUEST; as whole octets in the Target ID of
+    HANDOVER REQUIRED, and together with the cell id in the NR CGI of the source-to-target container (struct 1413) -/
+def gnbOK (t : Template) : Bool :=
+  match roleIdx t .gnbid, roleIdx t .bitlen, roleIdx t .cellid with
+  | some i, some j, none => (skeletons t).all fun tm => carriesHole tm ieGlobalRANNodeID [1, 0, 1, 1, 0] (.bitsLen i j)
+  | some i, none, some j => (skeletons t).all fun tm =>
+      carriesHole tm ieTargetID [1, 0, 0, 1, 0, 1, 1, 0] (.bits8 i)
+      && carriesEnc tm ieSourceToTargetTransparentContainer [0] 1413 [3, 1, 0, 1, 0] (.cell36 i j)
+  | none, none, none => true
+  | _, _, _ => false
+
+open Spec.Ts38413 in
+/-- GTP transport address: in the PDUSessionResourceSetupResponseTransfer (struct 1360) of the first item of the setup list -/
+def ipOK (t : Template) : Bool :=
+  match roleIdx t .ip, psiItemIe t.message with
+  | some i, some id => (skeletons t).all fun tm => carriesEnc tm id [0, 0, 1] 1360 [0, 0, 1, 0, 0, 0] (.ip4 i)
+  | some _, none => false
+  | none, _ => true
+
+
+/-! ### PLMN positions: a traversal of the skeleton directed by the schema types -/
+
+/-- index of `PLMNIdentity` in the schema (re-checked by name in Props/C13.lean) -/
+def plmnTy : Nat := 3
+
+/-- a site that can never pass the check (type mismatch between skeleton and schema, fuel exhausted) -/
+def badSite : List Nat × Bool × Tm := ([], false, .nil)
+
+/-- every position of the skeleton whose schema type is `PLMNIdentity`, as (position, nested?, sub-skeleton).
+    Caller-supplied values (holes at struct / pointer / list level) are not entered. `nested` = the position lies inside a
+    nested encoding or a per-item template, where positions of the outer value do not reach. -/
+def plmnSites (env : List StructDef) : Nat → Ty → Tm → List Nat → Bool → List (List Nat × Bool × Tm)
+  | 0, _, _, _, _ => [badSite]
+  | f + 1, ty, tm, p, n =>
+    match ty, tm with
+    | .ptr t, .ptr x => plmnSites env f t x (p ++ [0]) n
+    | .ptr _, .nil => []
+    | .ptr _, .hole _ => []
+    | .ptr _, _ => [badSite]
+    | .slice t, .slice xs => (xs.zipIdx).flatMap fun xk => plmnSites env f t xk.1 (p ++ [xk.2]) n
+    | .slice t, .mapInts _ item => plmnSites env f t item p true
+    | .slice _, .hole _ => []
+    | .slice _, _ => [badSite]
+    | .struct id, x =>
+      if id = plmnTy then [(p, n, x)]
+      else
+        match x with
+        | .struct fs =>
+          match env[id]? with
+          | some sd =>
+            if sd.fields.length = fs.length then
+              ((sd.fields.zip fs).zipIdx).flatMap fun fk => plmnSites env f fk.1.1.ty fk.1.2 (p ++ [fk.2]) n
+            else [badSite]
+          | none => [badSite]
+        | .hole _ => []
+        | _ => [badSite]
+    | .octs, .enc ty t => plmnSites env f (.struct ty) t p true
+    | _, _ => []
+
+def isPlmnT : Tm → Bool
+  | .struct [.hole .plmn] => true
+  | _ => false
+
+theorem isPlmnT_eval (s : Tm) (h : isPlmnT s = true) : eval E e cur s = .struct [.octs e.plmn] := by
+  unfold isPlmnT at h
+  split at h
+  · simp [eval, evalL, evalHole]
+  · simp at h
+
+/-- the fuel of the traversal (skeletons are far shallower) -/
+def siteFuel : Nat := 64
+
+def sitesOf (tm : Tm) : List (List Nat × Bool × Tm) :=
+  plmnSites Gen.Ngap.schema siteFuel (.struct Gen.Ngap.pduId) tm [] false
+
+/-- every PLMNIdentity-typed position of every skeleton holds `TestPlmn`; positions outside nested encodings are also
+    positions of `Tm.at` -/
+def plmnOK (t : Template) : Bool :=
+  (skeletons t).all fun tm =>
+    (sitesOf tm).all fun site =>
+      isPlmnT site.2.2 && (site.2.1 || (match Tm.at site.1 tm with | some s' => isPlmnT s' | none => false))
 
 end Stgutg.Proofs.Builders
